@@ -4,10 +4,10 @@ import concurrent.futures, json, os, re, shutil, subprocess, sys, time
 
 ROOT = os.path.dirname(os.path.dirname(os.path.dirname(os.path.abspath(__file__))))
 REPO = os.environ.get("VERIF_REPO", "/repo")
-WORK = os.path.join(ROOT, ".work")
+WORK = os.environ.get("VERIF_WORK") or os.path.join(ROOT, ".work")
 SPEC = os.path.join(ROOT, "spec")
 HARNESS = os.path.join(ROOT, "harness")
-EVIDENCE = os.path.join(ROOT, "evidence")
+EVIDENCE = os.environ.get("VERIF_EVIDENCE") or os.path.join(ROOT, "evidence")
 REPLAY = os.path.join(EVIDENCE, "replay")
 TLA_CP = "/opt/veriftools/tla/tla2tools.jar:/opt/veriftools/tla/CommunityModules-deps.jar"
 NCPU = os.cpu_count() or 4
@@ -40,14 +40,23 @@ def build_vh(tags=("verif",), race=False):
     if key in _built:
         return _built[key]
     os.makedirs(os.path.join(WORK, "bin"), exist_ok=True)
-    shutil.copyfile(os.path.join(REPO, "go.sum"), os.path.join(HARNESS, "go.sum"))
+    harness = HARNESS
+    if REPO != "/repo":
+        # another tree than /repo (seeded-change trials in a scratch worktree): a private copy of the harness module whose
+        # replace directive points there
+        harness = os.path.join(WORK, "harness")
+        shutil.rmtree(harness, ignore_errors=True)
+        shutil.copytree(HARNESS, harness)
+        gm = open(os.path.join(harness, "go.mod")).read().replace("=> /repo", "=> " + REPO)
+        open(os.path.join(harness, "go.mod"), "w").write(gm)
+    shutil.copyfile(os.path.join(REPO, "go.sum"), os.path.join(harness, "go.sum"))
     out = os.path.join(WORK, "bin", "vh-" + "-".join(tags) + ("-race" if race else ""))
     cmd = ["go", "build", "-tags", " ".join(tags), "-o", out]
     if race:
         cmd.append("-race")
     cmd.append("./cmd/vh")
     t0 = time.time()
-    p = subprocess.run(cmd, cwd=HARNESS, env=GOENV, stdout=subprocess.PIPE, stderr=subprocess.STDOUT, text=True)
+    p = subprocess.run(cmd, cwd=harness, env=GOENV, stdout=subprocess.PIPE, stderr=subprocess.STDOUT, text=True)
     if p.returncode != 0:
         raise Inconclusive("harness build failed (does /repo compile with -tags %s?):\n%s" % (" ".join(tags), p.stdout[-3000:]))
     log("[build] %s in %.1fs" % (os.path.basename(out), time.time() - t0))
